@@ -694,6 +694,14 @@ func TestVerifC14H(t *testing.T) {
 				bset(0, 1, 2, 0), bset(0, 2, 1, 11), bdel(0, 2, 1), hdJoinOp(3, 2, 3), set(1, 1, 1), bset(0, 1, 1, 11), bdel(0, 1, 1),
 				hdOp{K: "api", B: 0, SignAs: 1, R: 1, Api: "transient", Tk: "set", Key: 1, Tag: 12},
 				hdOp{K: "api", B: 0, SignAs: 0, R: 1, Api: "transienthttp", Tk: "set", Key: 1, Tag: 12}, set(2, 2, 2))
+			// known finding: the same JSON value from both origins (the room request carries decoded JSON, a client raw JSON):
+			// setting it again from the other side is setting an unchanged value, but reflect.DeepEqual never equates the two
+			// and every listener is told "set k v, old value v". The model's values are JSON values (one pool); every other
+			// case keeps the two pools apart (1..3 / 11..13).
+			add(hdJoinOp(1, 1, 1), hdJoinOp(2, 1, 2), bset(0, 1, 1, 1), set(1, 1, 1))
+			out[len(out)-1].Finding = "C14/hub/mixed-origin-equal-value"
+			add(hdJoinOp(1, 1, 1), hdJoinOp(2, 1, 2), set(2, 2, 3), bset(0, 1, 2, 3), rem(1, 2))
+			out[len(out)-1].Finding = "C14/hub/mixed-origin-equal-value"
 			// two rooms with the same name and keys on two backends
 			two := []hdOp{{K: "connect", C: 1}, {K: "connect", C: 2}, {K: "connect", C: 3}, {K: "connect", C: 4},
 				{K: "hello", C: 1, B: 0, U: 1}, {K: "hello", C: 2, B: 1, U: 1}, {K: "hello", C: 3, B: 0, U: 2}, {K: "hello", C: 4, B: 1, U: 2},
